@@ -608,14 +608,16 @@ def r07_15(run, model):
     f = model.fn("mono", MONO)
     t = S.norm_ws(run.facts.text(MONO, f.body["sp"]))
     n = 0
-    for what, acc in (("struct", r"struct_def_mut|insert_struct|structs_mut"), ("enum", r"enum_def_mut|insert_enum|enums_mut")):
+    for what, acc in (("struct", r"struct_def_mut|insert_struct|structs_mut"), ("enum", r"enum_def_mut|insert_enum|enums_mut"),
+                      ("trait", r"trait_defs")):
         n += 1
         rewrites = False
         for loop in S.find(f.body, "For"):
             lt = S.norm_ws(run.facts.text(MONO, loop["body"]["sp"]))
             if "collapse_type_apps" in lt and re.search(acc, lt):
                 rewrites = True
-        run.ob("R07.15", f"mono|field types of the retained {what} definitions are collapsed", rewrites, site(MONO, f.node["sp"]),
+        run.ob("R07.15", f"mono|field types of the retained {what} definitions are collapsed" if what != "trait" else "mono|method signatures of the trait definitions are collapsed",
+               rewrites, site(MONO, f.node["sp"]),
                f"a loop in mono() that rewrites {what} definitions through collapse_type_apps: {rewrites}",
                witness="enum Opt[T] { Some(T), None } struct Holder { v: Opt[int32], n: int32 }: the Go back end panics `generic types not supported in "
                        "Go backend: ty=TEnum(Opt), args=[TInt32]`")
